@@ -587,7 +587,11 @@ func (group *Group) writev2RtmpSubSessions(bs net.Buffers) {
 		if session.IsFresh || session.ShouldWaitVideoKeyFrame {
 			continue
 		}
-		_ = session.Writev(bs)
+		// net.Buffers在发送过程中会被消费（底层数组的元素被置空），并且发送可能发生在session自己的写协程里，
+		// 所以每个session必须使用各自独立的一份，否则只有第一个session能收到数据
+		tmp := make(net.Buffers, len(bs))
+		copy(tmp, bs)
+		_ = session.Writev(tmp)
 	}
 }
 
